@@ -190,6 +190,37 @@ def run(ctx):
                 if not any(isinstance(s, ast.Raise) for s in walk_stmts(h.body)):
                     ctx.violate("R2", "exception handler in strtobool that does not re-raise", sb, h)
 
+    # the function itself, evaluated: every documented word in three letter cases, and foreign strings
+    from ..accessors import AccessorEval as _AE, Raised as _Raised
+    from ..symarr import NotSymbolic as _NS
+
+    badw = None
+    nw = 0
+    try:
+        for w in sorted(DOC_TRUE | DOC_FALSE):
+            for spelled in (w, w.upper(), w.title(), w[:1].lower() + w[1:].upper()):
+                nw += 1
+                try:
+                    got = _AE(prog, None).run_free(sb, [spelled], {})
+                except _Raised as exc:
+                    got = f"raises {exc.args[0]}"
+                if got is not (w in DOC_TRUE):
+                    badw = badw or f"strtobool({spelled!r}) gives {got!r}, documented {w in DOC_TRUE}"
+        for foreign in ("maybe", "", "2", "tru"):
+            nw += 1
+            try:
+                got = _AE(prog, None).run_free(sb, [foreign], {})
+                badw = badw or f"strtobool({foreign!r}) returns {got!r} instead of raising ValueError"
+            except _Raised as exc:
+                if exc.args[0] != "ValueError":
+                    badw = badw or f"strtobool({foreign!r}) raises {exc.args[0]}, documented ValueError"
+    except _NS as exc:
+        raise AnalysisError(f"strtobool is outside the evaluation whitelist: {exc}") from exc
+    if badw:
+        ctx.violate("R2", badw, sb, sb.node, construct=badw[:160])
+    else:
+        ctx.ok("R2", f"strtobool evaluated on {nw} strings (every documented word in four letter cases, four foreign strings): documented value or ValueError", sb.where)
+
     # ------------------------------------------------------------------ R3
     ctx.rule("R3", "volume() returns a non-negative quantity", "a left-handed or permuted cell gives a negative volume")
     _check_volume(ctx)
@@ -232,53 +263,8 @@ def run(ctx):
         bad = [k for k in kws if k in ("type", "eigvals_only", "subset_by_index", "subset_by_value", "lower") and not (k == "type" and isinstance(kws[k], ast.Constant) and kws[k].value == 1)]
         if bad:
             ctx.violate("R5", f"eigh called with options {bad} that change the problem solved", dn, cs.node)
-        # (w, v) = eigh(...); return (from v, from w)
-        pm = prog.parents(dn)
-        par = pm.get(id(cs.node))
-        wv = None
-        if isinstance(par, ast.Assign) and isinstance(par.targets[0], ast.Tuple) and len(par.targets[0].elts) == 2:
-            wv = [getattr(e, "id", None) for e in par.targets[0].elts]
-        rets = [n for n in dn.own_nodes() if isinstance(n, ast.Return)]
-        if wv and len(rets) == 1 and isinstance(rets[0].value, ast.Tuple) and len(rets[0].value.elts) == 2:
-            def origin(e, allow_slice):
-                """Follow plain aliases (and, for the vectors, basic slices) back to the eigh results.
-                Any other transformation (clip, abs, arithmetic, sorting ...) is reported as 'modified'."""
-                seen = set()
-                modified = None
-                while True:
-                    if isinstance(e, ast.Subscript) and allow_slice and all(isinstance(x, ast.Slice) for x in (e.slice.elts if isinstance(e.slice, ast.Tuple) else [e.slice])):
-                        e = e.value
-                        continue
-                    if isinstance(e, ast.Name) and e.id not in wv and e.id not in seen:
-                        seen.add(e.id)
-                        d = straightline_def(dn, e.id, rets[0])
-                        if d is None or isinstance(d, tuple):
-                            break
-                        e = d
-                        continue
-                    break
-                if not isinstance(e, ast.Name):
-                    modified = src_of(e)
-                return (names_in(e) & set(wv)), modified
-            (o0, m0), (o1, m1) = origin(rets[0].value.elts[0], True), origin(rets[0].value.elts[1], False)
-            if o0 == {wv[1]} and o1 == {wv[0]} and (m0 or m1):
-                ctx.violate("R5", f"the returned {'orbitals' if m0 else 'occupations'} are a modified copy of the eigh result (`{m0 or m1}`): they are no longer the generalized eigen{'vectors' if m0 else 'values'}", dn, rets[0])
-                o0 = o1 = None
-            if o0 is None:
-                pass
-            elif o0 == {wv[1]} and o1 == {wv[0]}:
-                ctx.ok("R5", "returns (eigenvectors, eigenvalues) in the documented order", f"{dn.module.relpath}:{rets[0].lineno}")
-            else:
-                ctx.violate("R5", f"return order is not (coeffs from eigenvectors, occs from eigenvalues): got origins {sorted(o0)}, {sorted(o1)}", dn, rets[0])
-        else:
-            ctx.violate("R5", "cannot match `w, v = eigh(..)` / `return coeffs, occs` shape", dn, dn.node, construct="eigh result wiring")
-        # first argument: S^T D S built from both parameters
-        a0 = deref(dn, args[0]) if args else None
-        if a0 is not None and {dn.posparams[0], dn.posparams[1]} <= _deep_names(dn, a0):
-            ctx.ok("R5", "matrix diagonalised is built from dm and overlap", dn.where)
-        else:
-            ctx.violate("R5", "matrix passed to eigh is not built from both dm and overlap", dn, cs.node)
-
+        # which matrix is diagonalised, and how the results are paired and returned, is decided by evaluation below
+    _check_naturals_evaluated(ctx)
 
 def _has_call(node, attrs):
     for n in ast.walk(node):
@@ -362,10 +348,19 @@ def _check_check_dm(ctx):
         for lo in (-3 * eps, -1.5 * eps, -0.5 * eps, 0.0, 0.3):
             for hi in (occ_max - 0.1, occ_max, occ_max + 0.5 * eps, occ_max + 1.5 * eps, occ_max + 3 * eps, occ_max * (1 + 1.5 * eps) if occ_max != 1.0 else occ_max + 0.5 * eps):
                 cases.append((eps, occ_max, lo, hi))
+    # occupations exactly on the bounds are accepted (the inequalities are strict)
+    for eps, occ_max in ((1e-4, 1.0), (0.25, 2.0)):
+        cases.append((eps, occ_max, -eps, occ_max + eps))
+    # documented defaults (eps = 1e-4, occ_max = 1): the same decisions without keyword arguments
+    for lo, hi in ((-3e-4, 0.5), (-0.5e-4, 1.0 + 0.5e-4), (0.0, 1.0 + 3e-4), (0.0, 1.9)):
+        cases.append((None, None, lo, hi))
     bad = None
     calls = []
     try:
         for eps, occ_max, lo, hi in cases:
+            defaults = eps is None
+            if defaults:
+                eps, occ_max = 1e-4, 1.0
             occ = np.array([lo, 0.5 * occ_max, hi])
 
             def stub(args, kw, occ=occ):
@@ -377,7 +372,7 @@ def _check_check_dm(ctx):
             ev.stubs = {dn.qualname: stub}
             dm, ov = ("dm",), ("overlap",)
             try:
-                ev.run_free(cd, [dm, ov], {"eps": eps, "occ_max": occ_max})
+                ev.run_free(cd, [dm, ov], {} if defaults else {"eps": eps, "occ_max": occ_max})
                 got = "accepted"
             except Raised as exc:
                 got = exc.cls
@@ -395,3 +390,72 @@ def _check_check_dm(ctx):
         ctx.violate("R4", f"check_dm(eps={eps}, occ_max={occ_max}) with natural occupations between {lo:g} and {hi:g}: {got}" + (f", expected {want} (reject exactly when min < -eps or max > occ_max + eps)" if want else ""), cd, cd.node, construct=f"check_dm eps={eps} occ_max={occ_max} lo={lo:g} hi={hi:g}: {got}")
     else:
         ctx.ok("R4", f"check_dm evaluated on {len(cases)} (eps, occ_max, smallest, largest occupation) combinations around both bounds: ValueError exactly when min < -eps or max > occ_max + eps; the occupations are those of derive_naturals(dm, overlap)", f"{cd.module.relpath}:{cd.lineno}")
+
+
+def _check_naturals_evaluated(ctx):
+    """derive_naturals with `eigh` stubbed, on symbolic symmetric 2x2 D and S: the matrix handed to the solver is
+    S D S, the metric is S, and column k of the returned coefficients belongs to the k-th returned occupation (same
+    position in the solver's output, whatever common re-ordering is applied to both)."""
+    from ..accessors import AccessorEval, Raised
+    from ..symarr import NotSymbolic, Sym, first_difference, sym_array
+
+    prog = ctx.prog
+    dn = prog.func("iodata.utils.derive_naturals")
+    d = sym_array("d", (2, 2))
+    s = sym_array("s", (2, 2))
+    d[1, 0] = d[0, 1]
+    s[1, 0] = s[0, 1]
+    seen = {}
+    evals = np.array([Sym.atom("n0"), Sym.atom("n1")], dtype=object)
+    evecs = np.array([[Sym.atom("v00"), Sym.atom("v01")], [Sym.atom("v10"), Sym.atom("v11")]], dtype=object)
+
+    def eigh(args, kw):
+        seen["args"], seen["kw"] = args, kw
+        return (evals, evecs)
+
+    ev = AccessorEval(prog, None, limit=2000)
+    ev.module = dn.module
+    ev.ext_stubs = {"scipy.linalg.eigh": eigh}
+    try:
+        res = ev.run_free(dn, [d, s], {})
+    except Raised as exc:
+        ctx.violate("R5", f"derive_naturals raises {exc.args[0]} on 2x2 matrices", dn, dn.node, construct="derive_naturals raises")
+        return
+    except NotSymbolic as exc:
+        raise AnalysisError(f"derive_naturals is outside the evaluation whitelist: {exc}") from exc
+    if "args" not in seen:
+        return  # the structural part of R5 reports the missing call
+    a0 = seen["args"][0] if seen["args"] else seen["kw"].get("a")
+    a1 = seen["args"][1] if len(seen["args"]) > 1 else seen["kw"].get("b")
+    want0 = np.dot(s, np.dot(d, s))
+    diff = first_difference(np.asarray(a0, dtype=object), want0) if a0 is not None else "missing"
+    where = f"{dn.module.relpath}:{dn.lineno}"
+    if diff is not None:
+        ctx.violate("R5", f"derive_naturals hands the solver a matrix that is not S D S ({diff}): its eigenvalues are not the natural occupations", dn, dn.node, construct="eigh matrix is not S D S")
+        return
+    if a1 is None or first_difference(np.asarray(a1, dtype=object), s) is not None and first_difference(np.asarray(a1, dtype=object), s.T) is not None:
+        ctx.violate("R5", "derive_naturals does not hand the overlap to the solver as the metric", dn, dn.node, construct="eigh metric is not S")
+        return
+    try:
+        coeffs, occs = res
+    except (TypeError, ValueError):
+        ctx.violate("R5", "derive_naturals does not return (coefficients, occupations)", dn, dn.node, construct="derive_naturals return")
+        return
+    coeffs, occs = np.asarray(coeffs, dtype=object), np.asarray(occs, dtype=object)
+    bad = None
+    if coeffs.shape != (2, 2) or occs.shape != (2,):
+        bad = f"shapes {coeffs.shape} / {occs.shape}"
+    else:
+        for k in range(2):
+            src = [j for j in range(2) if Sym.const(occs[k]) == evals[j]]
+            if len(src) != 1:
+                bad = f"returned occupation {k} is `{occs[k]!r}`, not one of the solver's eigenvalues"
+                break
+            j = src[0]
+            if not all(Sym.const(coeffs[i, k]) == evecs[i, j] for i in range(2)):
+                bad = f"returned occupation {k} is the solver's eigenvalue {j}, but returned column {k} is not the solver's eigenvector {j}"
+                break
+    if bad:
+        ctx.violate("R5", f"derive_naturals: {bad}: orbitals and occupations are paired wrongly (or altered)", dn, dn.node, construct=f"derive_naturals pairing: {bad}"[:160])
+    else:
+        ctx.ok("R5", "derive_naturals (solver stubbed, symbolic 2x2 D and S): solves (S D S) c = n S c and returns eigenvector k with eigenvalue k, unaltered", where)
